@@ -1851,15 +1851,22 @@ func (e *Engine) convert(st *State, x Value, from, to types.Type) Value {
 			fs := uf.(*types.Slice)
 			if b, ok := fs.Elem().Underlying().(*types.Basic); ok && b.Kind() == types.Int32 {
 				slots := e.sliceSlots(st, xv)
-				rs := make([]rune, len(slots))
-				for i, s := range slots {
+				// a constant rune is encoded concretely; a symbolic one must be ASCII on this path
+				// (decided by the solver), where its encoding is its low byte
+				var out []Value
+				for _, s := range slots {
 					t := s.(*Term)
-					if !t.IsConst() {
-						e.unsupported(st, "symbolic []rune to string")
+					if t.IsConst() {
+						out = append(out, e.byteVals([]byte(string(rune(t.Signed()))))...)
+						continue
 					}
-					rs[i] = rune(t.Signed())
+					e.solver.SyncTo(st.pcList())
+					if r := e.solver.Check(c.Cmp(OpUle, c.BV(32, 0x80), t)); r != Unsat {
+						e.unsupported(st, "symbolic []rune to string: rune may be non-ASCII")
+					}
+					out = append(out, c.Extract(t, 7, 0))
 				}
-				return e.newString(st, e.byteVals([]byte(string(rs))))
+				return e.newString(st, out)
 			}
 			return e.newString(st, e.sliceSlots(st, xv))
 		}
